@@ -11,7 +11,7 @@ instead of matching helper names, variable names, expression text or branch shap
 """
 import itertools
 
-from ..core import (names_of, AnalysisBroken, Inliner, canon, strip, last_member, norm_cond, walk, forward, lvalue_root)
+from ..core import (names_of, AnalysisBroken, Inliner, canon, strip, strip_load, last_member, norm_cond, walk, forward, lvalue_root)
 from ..analyses import (is_call, holding, path_to, describe, callback_kind, atoms_imply)
 from .. import roles
 from . import c06
@@ -326,7 +326,32 @@ def dispatch_sites(g):
         r = lvalue_root(strip(e['fnexpr']))
         if r is not None and r.get('vk') in ('local', 'param') and r['name'] in hl and not last_member(e['fnexpr']):
             out.append(e)
+            continue
+        # the called value is read through such a local: `(*slot[i])(..)` with slot[k] = &fd->handler_x (a local table of
+        # pointers to the handler fields), `(*hp)(..)` with hp = &fd->handler_x
+        r = _read_root(e['fnexpr'])
+        if r is not None and r['name'] in hl:
+            out.append(e)
     return out
+
+
+def _read_root(x):
+    """the local a value is read from or through: descends through loads, casts, dereferences, subscripts and `.f`
+    (not `->f` of a record: that is an object of its own, identified by its type)"""
+    x = strip_load(x)
+    while isinstance(x, dict):
+        k = x.get('k')
+        if k == 'var':
+            return x if x.get('vk') in ('local', 'param') else None
+        if k in ('deref', 'load', 'cast'):
+            x = strip_load(x['e'])
+        elif k == 'index':
+            x = strip_load(x['base'])
+        elif k == 'member' and not x.get('arrow'):
+            x = strip_load(x['base'])
+        else:
+            return None
+    return None
 
 
 class DispatchAI(h02.AbsInt):
